@@ -105,6 +105,8 @@ class Kernel:
         self.slow_pool = None  # (n, p): tasks of the n-th pool created in this run start 6-40 s late with probability p
         self.slow_pool_delays = 0
         self.slow_thread = None
+        self.focus_p = 0.0
+        self.focus_preempts = 0
 
     # --- decisions -------------------------------------------------------------------------
     def decide(self, n):
@@ -253,8 +255,10 @@ class Kernel:
             return
         if not self.runnable:
             return
-        if self.decide_p(self.preempt_p):
+        if self.decide_p(self.focus_p if kind == 'focus' else self.preempt_p):
             self.preempts += 1
+            if kind == 'focus':
+                self.focus_preempts += 1
             me._state = 'runnable'
             self.runnable.append(me)
             self.switch(me)
@@ -313,26 +317,38 @@ TRACE_FILES = ()
 TRACE_FN = None
 
 
-def make_trace(files, line_level=False):
+def make_trace(files, line_level=False, call_level=True, focus=()):
     files = frozenset(files)
+    focus = frozenset(focus)
 
     def local(frame, event, arg):
         if event == 'line':
             K.yield_point('line')
         return local
 
+    def local_focus(frame, event, arg):
+        if event == 'line':
+            K.yield_point('focus')
+        return local_focus
+
     def tr(frame, event, arg):
         if event == 'call' and frame.f_code.co_filename in files:
-            K.yield_point('call')
+            if frame.f_code.co_name in focus:
+                # a function of this run's focus set: every line of it is a pre-emption point with a boosted
+                # probability (Kernel.focus_p) - races inside a few critical sections are explored much more densely
+                K.yield_point('focus')
+                return local_focus
+            if call_level:
+                K.yield_point('call')
             return local if line_level else None
         return None
 
     return tr
 
 
-def enable_trace(files, line_level=False):
+def enable_trace(files, line_level=False, call_level=True, focus=()):
     global TRACE_FN
-    TRACE_FN = make_trace(files, line_level)
+    TRACE_FN = make_trace(files, line_level, call_level, focus)
     sys.settrace(TRACE_FN)
 
 
